@@ -31,12 +31,11 @@ def split_id(sid):
 
 
 def dump(repo):
-    from pydiffx import sections, options
-    from pydiffx.reader import DiffXReader
-    from pydiffx.writer import DiffXWriter
-    from pydiffx.utils import text, unified_diffs
-    import pydiffx.utils.text
-
+    """Reflect the working tree.  Each group of tables is reflected on its own:
+    a group that cannot be reflected (attribute renamed, module restructured)
+    gets neutral defaults and an entry in t['errors'], so that only the
+    properties that need that group lose their tie."""
+    t = {'errors': {}}
     bad_ids = []
 
     def sid(x):
@@ -49,54 +48,86 @@ def dump(repo):
     def sids(xs):
         return sorted(sid(x) for x in xs)
 
-    t = {}
-    t['valid_next'] = sorted(
-        [sid(k), sids(v)] for k, v in sections.VALID_SECTION_STATES.items())
-    t['preamble_sections'] = sids(sections.PREAMBLE_SECTIONS)
-    t['meta_sections'] = sids(sections.META_SECTIONS)
-    t['content_sections'] = sids(sections.CONTENT_SECTIONS)
-    t['section_consts'] = sorted(
-        [k, sid(v)] for k, v in vars(sections.Section).items()
-        if not k.startswith('_') and isinstance(v, str))
-    t['line_endings'] = sorted(options.LineEndings.VALID_VALUES)
-    t['mimetypes'] = sorted(options.PreambleMimeType.VALID_VALUES)
-    t['diff_types'] = sorted(options.DiffType.VALID_VALUES)
-    t['meta_formats'] = sorted(options.MetaFormat.VALID_VALUES)
-    t['versions'] = sorted(options.SpecVersion.VALID_VALUES)
-    t['default_version'] = options.SpecVersion.DEFAULT_VERSION
-    t['writer_version'] = DiffXWriter.VERSION
-    t['default_indent'] = DiffXWriter.DEFAULT_PREAMBLE_INDENT
-    t['default_encoding'] = DiffXWriter.DEFAULT_ENCODING
-    t['newline_formats'] = sorted(
-        [k, v] for k, v in text.NEWLINE_FORMATS.items())
-    t['boms'] = sorted(
-        [k, [b.hex() for b in v]] for k, v in text.BOMS.items())
-    t['no_newline_marker'] = unified_diffs.NO_NEWLINE_MARKER.hex()
-    sig = inspect.signature(DiffXReader._read_until)
-    t['chunk'] = sig.parameters['chunk_size'].default
+    def group(name, defaults, fn):
+        t.update(defaults)
+        try:
+            t.update(fn())
+        except Exception as e:   # noqa
+            t['errors'][name] = '%s: %s' % (type(e).__name__, e)
+
+    def g_sections():
+        from pydiffx import sections
+        return {
+            'valid_next': sorted([sid(k), sids(v)] for k, v in sections.VALID_SECTION_STATES.items()),
+            'preamble_sections': sids(sections.PREAMBLE_SECTIONS),
+            'meta_sections': sids(sections.META_SECTIONS),
+            'content_sections': sids(sections.CONTENT_SECTIONS),
+            'section_consts': sorted([k, sid(v)] for k, v in vars(sections.Section).items()
+                                     if not k.startswith('_') and isinstance(v, str)),
+        }
+    group('sections', {'valid_next': [], 'preamble_sections': [], 'meta_sections': [], 'content_sections': [],
+                       'section_consts': []}, g_sections)
+
+    def g_options():
+        from pydiffx import options
+        from pydiffx.writer import DiffXWriter
+        return {
+            'line_endings': sorted(options.LineEndings.VALID_VALUES),
+            'mimetypes': sorted(options.PreambleMimeType.VALID_VALUES),
+            'diff_types': sorted(options.DiffType.VALID_VALUES),
+            'meta_formats': sorted(options.MetaFormat.VALID_VALUES),
+            'versions': sorted(options.SpecVersion.VALID_VALUES),
+            'default_version': options.SpecVersion.DEFAULT_VERSION,
+            'writer_version': DiffXWriter.VERSION,
+            'default_indent': DiffXWriter.DEFAULT_PREAMBLE_INDENT,
+            'default_encoding': DiffXWriter.DEFAULT_ENCODING,
+        }
+    group('options', {'line_endings': [], 'mimetypes': [], 'diff_types': [], 'meta_formats': [], 'versions': [],
+                      'default_version': '', 'writer_version': '1.0', 'default_indent': 4,
+                      'default_encoding': 'utf-8'}, g_options)
+
+    def g_text():
+        from pydiffx.utils import text
+        return {
+            'newline_formats': sorted([k, v] for k, v in text.NEWLINE_FORMATS.items()),
+            'boms': sorted([k, [b.hex() for b in v]] for k, v in text.BOMS.items()),
+        }
+    group('text', {'newline_formats': [], 'boms': []}, g_text)
+
+    def g_hunks():
+        from pydiffx.utils import unified_diffs
+        return {'no_newline_marker': unified_diffs.NO_NEWLINE_MARKER.hex()}
+    group('hunks', {'no_newline_marker': ''}, g_hunks)
+
+    def g_chunk():
+        from pydiffx.reader import DiffXReader
+        sig = inspect.signature(DiffXReader._read_until)
+        return {'chunk': int(sig.parameters['chunk_size'].default), 'chunk_known': True}
+    group('chunk', {'chunk': 0, 'chunk_known': False}, g_chunk)
     t['bad_ids'] = sorted(set(bad_ids))
 
-    # regular expressions: fingerprinted (behaviour is tied by correspondence)
-    t['regexes'] = {
-        'header': DiffXReader._HEADER_RE.pattern.decode('latin1'),
-        'option_key': DiffXReader._HEADER_OPTION_KEY_RE.pattern.decode('latin1'),
-        'option_value': DiffXReader._HEADER_OPTION_VALUE_RE.pattern.decode('latin1'),
-        'hunk_header': unified_diffs.UNIFIED_DIFF_HUNK_HEADER_RE.pattern.decode('latin1'),
-        'hunk_header_flags': unified_diffs.UNIFIED_DIFF_HUNK_HEADER_RE.flags,
-    }
+    def g_regexes():
+        from pydiffx.reader import DiffXReader
+        from pydiffx.utils import unified_diffs
+        # regular expressions: fingerprinted (behaviour is tied by correspondence)
+        return {'regexes': {
+            'header': DiffXReader._HEADER_RE.pattern.decode('latin1'),
+            'option_key': DiffXReader._HEADER_OPTION_KEY_RE.pattern.decode('latin1'),
+            'option_value': DiffXReader._HEADER_OPTION_VALUE_RE.pattern.decode('latin1'),
+            'hunk_header': unified_diffs.UNIFIED_DIFF_HUNK_HEADER_RE.pattern.decode('latin1'),
+            'hunk_header_flags': unified_diffs.UNIFIED_DIFF_HUNK_HEADER_RE.flags,
+        }}
+    group('regexes', {'regexes': {}}, g_regexes)
 
     # DOM class table (projection that matters semantically)
-    try:
-        t['dom'] = dump_dom()
-    except Exception as e:   # pragma: no cover - reported through the tie
-        t['dom'] = {'error': '%s: %s' % (type(e).__name__, e)}
+    group('dom', {'dom': {'classes': {}, 'remapped': []}}, lambda: {'dom': dump_dom()})
 
     # specification's own state tree
-    try:
-        t['spec_tree'] = parse_spec_tree(
-            os.path.join(repo, 'docs', 'spec', 'section-format.rst'))
-    except Exception as e:   # pragma: no cover
-        t['spec_tree'] = {'error': '%s: %s' % (type(e).__name__, e)}
+    group('spec_tree', {'spec_tree': {'outline': []}},
+          lambda: {'spec_tree': parse_spec_tree(os.path.join(repo, 'docs', 'spec', 'section-format.rst'))})
+    if 'error' in t['spec_tree']:
+        t['errors']['spec_tree'] = t['spec_tree']['error']
+        t['spec_tree'] = {'outline': []}
 
     # fingerprints of anchored source files
     fps = {}
@@ -241,6 +272,8 @@ def render(t):
     w('def newlineFormats : List (Text × Text) := [%s]' % ', '.join(
         '(%s, %s)' % (lean_text(k), lean_text(v)) for k, v in t['newline_formats']))
     w('def noNewlineMarker : Bytes := %s' % lean_bytes_of_hex(t['no_newline_marker']))
+    w('/-- whether the default block size could be reflected from `DiffXReader._read_until` -/')
+    w('def chunkKnown : Bool := %s' % ('true' if t.get('chunk_known') else 'false'))
     w('def config : Config :=')
     w('  { chunk := %d' % int(t['chunk']))
     w('    boms := [%s]' % ', '.join(
